@@ -45,7 +45,7 @@ TStep ==
              [] R.res \in {"ok", "some"} /\ R.item \notin NonItems -> RetItem(R.fn, R.item, R.item[1] \in RealItemTags)
              [] R.res = "none"           -> RetEnd(R.fn)
              [] R.res = "secend"         -> RetSectionEnd(R.fn)
-             [] R.res = "err"            -> /\ RetErr(R.fn, R.kind, R.linen, R.coln)
+             [] R.res = "err"            -> /\ RetErr(R.fn, R.kind, R.linen, R.coln, IF R.kind = "io" THEN R.same_err ELSE TRUE)
                                              /\ ((corr[1] /\ R.kind = "syntax") =>
                                                    (R.linen = corr[2] /\ R.coln >= corr[3] /\ R.coln <= corr[4]))
              [] OTHER                    -> FALSE                   \* "panic": no behaviour of any parser (C05)
